@@ -22,7 +22,8 @@ offset `k` (bit 0 = most significant bit of octet 0); `B` is any non-zero patter
 CFDP (section at the end): the theorems are about the part every PDU decoder runs first — fixed header
 decode + `verify_length_and_checksum` (`CfdpFront.pduFront`, `directiveFront`) — and about the tail of
 every PDU `pack()` (`CfdpFront.framePdu`). Length-determining octets: 0–3 (`AvoidsFixedHeader`).
-The PDU bodies (EOF, Finished, …) are not modelled here; see manifest/C04.json.
+The eight real PDU decoders (each proved to be "front, then body"), their `pack()` tails and the factory
+are the subject of `Props/C04Pdu.lean`, which builds on the theorems of this section.
 -/
 namespace SpVerif.Props.C04
 open SpVerif SpVerif.SpacePacket SpVerif.Crc SpVerif.PusCrc
